@@ -166,6 +166,38 @@ func runC20(r *run) {
 			}
 		}
 	}
+	// A1 of the round-trip theorem: on the fractions the formatter writes (k digits, 10^k divides the unit, f < 10^k)
+	// the parser's float64 expression has exactly the value f * (unit / 10^k)
+	for _, p := range []int{3, 6, 9} {
+		unit := uint64(1)
+		for j := 0; j < p; j++ {
+			unit *= 10
+		}
+		for k := 1; k <= p; k++ {
+			pow := uint64(1)
+			for j := 0; j < k; j++ {
+				pow *= 10
+			}
+			fs := []uint64{1, pow - 1, pow / 2, pow/10 + 1}
+			for j := 0; j < 12; j++ {
+				fs = append(fs, 1+g.next()%(pow-1+1))
+			}
+			for _, f := range fs {
+				if f == 0 || f >= pow {
+					continue
+				}
+				scale := float64(1)
+				for j := 0; j < k; j++ {
+					scale *= 10
+				}
+				got := uint64(float64(f) * (float64(unit) / scale))
+				r.emit(fmt.Sprintf("C20 fm %d %d %d", f, unit, k), fmt.Sprintf("%d %d", got, got))
+				if got != f*(unit/pow) {
+					r.violate(violation{What: "assumption A1: the float64 product of the duration parser is not exact on a fraction the formatter can write", Input: map[string]any{"f": f, "unit": unit, "digits": k}, Expected: f * (unit / pow), Actual: got})
+				}
+			}
+		}
+	}
 	// strings
 	unitToks := []string{"ns", "us", "µs", "μs", "ms", "s", "m", "h", "d", "x", "", "ss", "D"}
 	digits := func() string {
